@@ -293,3 +293,66 @@ pub fn check(c: &VCase, obs: &mut Obs) -> Result<(), Fail> {
     obs.nontrivial();
     Ok(())
 }
+
+/// A transaction without any script data (no redeemers, no datums, no Plutus script) that nevertheless announces a
+/// script-data hash: "no hash is produced when there are neither redeemers nor datums", so no value of field 11 can
+/// be the right one and the validator must not accept the transaction.
+#[derive(Debug, Clone, Serialize, Deserialize)]
+pub struct PCase {
+    pub spec: Spec,
+    pub hash: [u8; 32],
+    /// 0: arbitrary bytes; 1: hash of the empty redeemer map + views; 2: hash of nothing
+    pub kind: u8,
+}
+
+pub fn pcase() -> impl Strategy<Value = PCase> {
+    (prop_oneof![3 => Just(EraK::Conway), 1 => Just(EraK::Babbage), 1 => Just(EraK::Alonzo)].prop_flat_map(gen::spec_for), any::<[u8; 32]>(), 0u8..3).prop_map(|(mut spec, hash, kind)| {
+        spec.plutus = None;
+        spec.mint.retain(|m| m.2 > 0);
+        // room for the 35 bytes the extra body field adds to the size the fee is computed on
+        spec.extra_fee = spec.extra_fee.max(5_000);
+        if let Some(i) = spec.inputs.first_mut() {
+            i.coin = i.coin.max(150_000_000);
+        }
+        PCase { spec, hash, kind }
+    })
+}
+
+pub fn check_plain(c: &PCase, obs: &mut Obs) -> Result<(), Fail> {
+    let era = c.spec.era;
+    let f = match forge::forge(&c.spec) {
+        Ok(f) => f,
+        Err(_) => {
+            obs.discard();
+            return Ok(());
+        }
+    };
+    let p = parts(&f.tx)?;
+    if p.r.is_some() || p.d.is_some() || p.field11.is_some() {
+        obs.discard();
+        return Ok(());
+    }
+    let env0 = pp::env(era, &pp::PpTweak::default());
+    if run::validate(era, &f.tx, &f.utxos, &env0) != Outcome::Accepted {
+        obs.class(format!("v:plain:{}:base-not-accepted", era.name()));
+        return Ok(());
+    }
+    let h: [u8; 32] = match c.kind {
+        0 => c.hash,
+        1 => formula(None, None, Some(&views_of(&[]))),
+        _ => b256(&[]),
+    };
+    let tx = resign(&f, &p, &with_field11(&p, Some(&h)));
+    let what = ["arbitrary", "hash-of-empty-script-data", "hash-of-nothing"][c.kind as usize % 3];
+    match run::validate(era, &tx, &f.utxos, &env0) {
+        Outcome::Rejected(t) => obs.class(format!("v:plain:{}:{what}:{}", era.name(), if t.contains("ScriptIntegrityHash") { "rejected-as-ScriptIntegrityHash" } else { "rejected-otherwise" })),
+        Outcome::Accepted => pv_fail!(
+            format!("validator-accepts-hash-without-script-data:{}", era.name()),
+            "{} transaction without redeemers, datums or scripts is accepted, and still accepted when its body announces the script-data hash {} ({what}); tx {}",
+            era.name(), hexs(&h), hexs(&tx)
+        ),
+        Outcome::Undecodable(e) => pv_fail!("harness:variant-undecodable", "hash-without-script-data: {e}: {}", hexs(&tx)),
+    }
+    obs.nontrivial();
+    Ok(())
+}
